@@ -151,6 +151,7 @@ pub struct Ctx {
 impl Ctx {
     pub fn new(id: &str, tier: Tier) -> Ctx {
         let seed = std::env::var("VERIF_SEED").ok().and_then(|s| s.parse().ok()).unwrap_or(0);
+        start_hang_watchdog(id.to_string(), tier, seed);
         Ctx {
             id: id.to_string(),
             tier,
@@ -280,6 +281,97 @@ impl Ctx {
         );
         std::process::exit(if unlisted > 0 { 1 } else { 0 });
     }
+}
+
+// ---------------- hang watchdog ----------------
+// A call into the subject that never returns (a change that makes a loop infinite) must become a verdict
+// with the offending input, not a check that never ends. Checks bracket each call with `enter(bytes)`;
+// a watchdog thread reports the first call that has not returned after HANG_LIMIT_S seconds.
+
+pub const HANG_LIMIT_S: u64 = 90;
+
+pub struct Slot {
+    since_ms: std::sync::atomic::AtomicU64,
+    len: std::sync::atomic::AtomicUsize,
+    buf: std::cell::UnsafeCell<[u8; 160]>,
+}
+unsafe impl Sync for Slot {}
+
+static SLOTS: std::sync::Mutex<Vec<&'static Slot>> = std::sync::Mutex::new(Vec::new());
+static NOW_MS: std::sync::atomic::AtomicU64 = std::sync::atomic::AtomicU64::new(0);
+
+thread_local! {
+    static MY_SLOT: &'static Slot = {
+        let s: &'static Slot = Box::leak(Box::new(Slot { since_ms: 0.into(), len: 0.into(), buf: std::cell::UnsafeCell::new([0; 160]) }));
+        SLOTS.lock().unwrap().push(s);
+        s
+    };
+}
+
+pub struct InCall(std::marker::PhantomData<*const ()>);
+
+/// Marks the start of one call into the subject on this thread; `what` (its first 160 bytes) is what the
+/// watchdog reports if the call never returns. Dropping the guard marks the return.
+#[inline]
+pub fn enter(what: &[u8]) -> InCall {
+    use std::sync::atomic::Ordering::Relaxed;
+    MY_SLOT.with(|s| {
+        let n = what.len().min(160);
+        unsafe { std::ptr::copy_nonoverlapping(what.as_ptr(), s.buf.get() as *mut u8, n) };
+        s.len.store(n, Relaxed);
+        s.since_ms.store(NOW_MS.load(Relaxed).max(1), Relaxed);
+    });
+    InCall(std::marker::PhantomData)
+}
+
+impl Drop for InCall {
+    #[inline]
+    fn drop(&mut self) {
+        MY_SLOT.with(|s| s.since_ms.store(0, std::sync::atomic::Ordering::Relaxed));
+    }
+}
+
+fn start_hang_watchdog(id: String, tier: Tier, seed: u64) {
+    use std::sync::atomic::Ordering::Relaxed;
+    let t0 = Instant::now();
+    std::thread::Builder::new()
+        .name("hang-watchdog".into())
+        .spawn(move || loop {
+            std::thread::sleep(std::time::Duration::from_millis(100));
+            let now = t0.elapsed().as_millis() as u64 + 1;
+            NOW_MS.store(now, Relaxed);
+            if now % 1000 > 100 {
+                continue;
+            }
+            let slots: Vec<&'static Slot> = SLOTS.lock().unwrap().clone();
+            for s in slots {
+                let since = s.since_ms.load(Relaxed);
+                if since != 0 && now.saturating_sub(since) > HANG_LIMIT_S * 1000 {
+                    let n = s.len.load(Relaxed).min(160);
+                    let what: Vec<u8> = unsafe { std::slice::from_raw_parts(s.buf.get() as *const u8, n).to_vec() };
+                    let root = root();
+                    let dir = root.join("replays").join(&id);
+                    let _ = std::fs::create_dir_all(&dir);
+                    let path = dir.join("hang.json");
+                    let sig = "a call into the code under check did not return (hang)";
+                    let case = json!({"input_head": show(&what), "seconds_without_return": (now - since) / 1000});
+                    let _ = std::fs::write(&path, serde_json::to_string_pretty(&json!({"property": id, "signature": sig, "cases": 1, "case": case})).unwrap());
+                    println!("VIOLATION property={} replay={}", id, path.display());
+                    println!("  signature={} cases=1 first={}", sig, case);
+                    let ev = json!({
+                        "property_id": id, "tier": if tier == Tier::Quick { "quick" } else { "thorough" }, "seed": seed, "level": "model_checking",
+                        "coverage": {"states": 1, "transitions": 1, "traces_validated_against_impl": 0, "evaluations": 1, "distinct_nontrivial": 1,
+                            "rule": "the run was cut short: one call into the code under check did not return", "samples": [case], "exhaustive": false,
+                            "caps_hit": ["hang: the enumeration was abandoned at the first call that did not return"], "violation_signatures": [{"signature": sig, "cases": 1, "known_finding": false, "replay": path.display().to_string()}]},
+                        "assumptions": [], "wall_s": t0.elapsed().as_secs_f64(), "violations": 1,
+                    });
+                    let _ = std::fs::create_dir_all(root.join("evidence"));
+                    let _ = std::fs::write(root.join("evidence").join(format!("{}.json", id)), serde_json::to_string_pretty(&ev).unwrap());
+                    std::process::exit(1);
+                }
+            }
+        })
+        .ok();
 }
 
 pub fn truncate(s: &str, n: usize) -> String {
